@@ -225,6 +225,7 @@ structure CpResp where
   onePayout : Bool   -- `len(r.Block.MinerPayouts) == 1`
   commitOk  : Bool   -- `Block.V2.Commitment == State.Commitment(...)` (peer.go:177)
   genuine   : Bool   -- the supplied state IS the state the canonical block with that ID was built on
+  noV1      : Bool   -- `len(r.Block.Transactions) == 0` (peer.go:175, repaired: a checkpoint block is applied with an empty v1 supplement, `ApplyBlock` indexes it per v1 transaction — a panic in a worker without recover)
   deriving Repr, DecidableEq
 
 /-- everything one peer answers for one request (`none` = the RPC failed / was malformed) -/
@@ -255,7 +256,7 @@ def gateBatch (U : Univ) (cfg : Cfg) (req : Req) (r : BResp) : BDec :=
     match r.cp with
     | none => .retry                                                               -- :59-61
     | some cp =>
-      if !cp.isV2 || !cp.onePayout then .retry                                     -- peer.go:173-174
+      if !cp.isV2 || !cp.onePayout || !cp.noV1 then .retry                                     -- peer.go:173-174
       else if !sameId U cp.blk req.base then .retry                                -- peer.go:175-176
       else if !cp.commitOk then .retry                                             -- peer.go:177-178
       else if !(U cp.blk).orphan then .retry                                       -- peer.go:179-185 (repair: ValidateOrphan on the supplied state; the payout value is covered neither by the ID nor by the commitment)
@@ -395,7 +396,7 @@ and the state it was built on. -/
 def serveHeaders (pb : List Nat) (id : Nat) : HResp :=
   if pb.contains id then .hdrs ((pb.takeWhile (· != id)).reverse) 0 else .eof
 
-def serveBatch (q : Req) : BResp := ⟨some ⟨q.base, true, true, true, true⟩, some q.hdrs⟩
+def serveBatch (q : Req) : BResp := ⟨some ⟨q.base, true, true, true, true, true⟩, some q.hdrs⟩
 
 /-- one `syncLoop` iteration of node `n` against an honest peer whose best chain is `pb` -/
 def honestRound (U : Univ) (cfg : Cfg) (n : Node) (pb : List Nat) : Node :=
